@@ -298,7 +298,10 @@ def body_identities(case):
     bf = float(Butterfly(strike1=k1, strike2=k2, strike3=k3)(x))
     if abs(bf - (call(k1) - 2 * call(k2) + call(k3))) > tol:
         out.append(Violation("C17/identity/butterfly", f"{bf}; {detail}"))
-    if k2 - k1 == k3 - k2 and bf < -tol:
+    # non-negative whenever the call combination is (body at or above the mid-point of the wings: 2 k2 >= k1 + k3); for a
+    # body below the mid-point the documented combination is negative beyond 2 k2 - k1 and "equals its call
+    # combination" is the clause that can hold
+    if 2 * k2 >= k1 + k3 and bf < -tol:
         out.append(Violation("C17/identity/symmetric-butterfly-negative", f"{bf}; {detail}"))
     dc = float(Digital(strike=k1, payoff_type=PayoffType.CALL)(x))
     dp = float(Digital(strike=k1, payoff_type=PayoffType.PUT)(x))
